@@ -2,7 +2,7 @@
    declarative specification of Spec.v (the central refinement: properties C01-C04 for the cache). *)
 From Coq Require Import Lia Sorted.
 From PG Require Import Base Mapping Spec CacheWriter CacheReader CacheStructDefs BinSearchProofs LexOrder
-  StringTableProofs MapperProofs BtLemmas WriterInv.
+  StringTableProofs MapperProofs BtLemmas Domain WriterInv.
 
 (* ------------------------------------------------------------------ *)
 (* 1. reading strings of the final table                                *)
